@@ -227,6 +227,7 @@ class MdSim(object):
                     return {"mode": tf["mode"], "variant": tf.get("variant", 0)}
             self.world.tool.fault_hook = hook
         key = None
+        inv0 = len(self.world.tool.invocations)
         try:
             if typ == "inline":
                 self.store.load("inline", body)
@@ -242,8 +243,9 @@ class MdSim(object):
                 key = path
                 if ev.get("via_imp"):
                     # the route a configuration file takes: MetadataStore.imp() with a loader class
-                    self.store.imp([{"class": "saml2_tophat.mdstore.MetaDataFile", "metadata": [(path,)]}])
-                    self.count("load.via-imp")
+                    fspec = (path,) if ev.get("cert_conf") is None else (path, cert_file(ev["cert_conf"]))
+                    self.store.imp([{"class": "saml2_tophat.mdstore.MetaDataFile", "metadata": [fspec]}])
+                    self.count("load.via-imp" + (".file-with-cert" if len(fspec) == 2 else ""))
                 else:
                     self.store.load("local", path)
             elif typ == "loader":
@@ -296,7 +298,8 @@ class MdSim(object):
             must_fail.append("source-fault:" + fault)
         if doc_expired:
             must_fail.append("document-expired")
-        verifying = typ == "remote" and ev.get("cert_conf") is not None and sign_key is not None
+        verifying = (typ == "remote" or (typ == "file" and ev.get("via_imp"))) \
+            and ev.get("cert_conf") is not None and sign_key is not None
         if verifying and fault in ("garbled", "truncated"):
             # ground truth for the bytes as delivered: does the document still carry a ds:Signature (a flipped
             # byte in the namespace declaration turns it into an unsigned document, which the store accepts by
@@ -318,6 +321,11 @@ class MdSim(object):
             must_fail.append("signature-under-wrong-cert")
         if verifying and tf:
             must_fail.append("verification-tool-fault")
+        if verifying and not any(v["op"] == "verify" and v["genuine_ok"] and v.get("key") == "k%d" % ev["cert_conf"]
+                                 for v in self.world.tool.invocations[inv0:]):
+            # whatever the reason (no verifier at hand, a skipped branch): a signed document from a source that
+            # is configured with a certificate contributes nothing unless the tool really vouched for it
+            must_fail.append("signature-never-verified")
         clean = not fault and not tf
         corrupted = fault in ("garbled", "truncated")
         # (when the bytes were corrupted the corruption may have hit the validUntil attribute: expiry is not
@@ -791,6 +799,10 @@ def generate(seed, prop, tier):
             if typ == "remote" and wrapper == "entities" and r.chance(0.6):
                 ev["sign"] = r.randrange(12)
                 ev["cert_conf"] = r.pick([ev["sign"], ev["sign"], (ev["sign"] + 1) % 12, None])
+            elif typ == "file" and ev.get("via_imp") and wrapper == "entities" and r.chance(0.5):
+                # a signed federation file listed with a verification certificate in the configuration
+                ev["sign"] = r.randrange(12)
+                ev["cert_conf"] = r.pick([ev["sign"], (ev["sign"] + 1) % 12])
             if faulty and rf.chance(0.35):
                 ev["fault"] = rf.pick({"inline": ["truncated", "garbled", "empty"],
                                        "file": ["missing", "truncated", "garbled", "empty"],
